@@ -5,7 +5,7 @@
 Require Extraction.
 Require Import ExtrOcamlBasic.
 From Coq Require Import ZArith.
-From BE Require Model.Timer Model.Regs Model.Decode Model.Lcd Model.Kbd Model.Sched Model.MemBus Model.IL Model.Lift Model.Emu Model.Static.
+From BE Require Model.Timer Model.Regs Model.Decode Model.Lcd Model.Kbd Model.Sched Model.MemBus Model.IL Model.Lift Model.Emu Model.Static Model.Spec.
 Extraction Language OCaml.
 
 Definition timer_py_run := Timer.py_run.
@@ -39,6 +39,7 @@ Definition il_lift := Lift.lift_instr.
 Definition il_mk_state := Emu.mk_state.
 Definition il_exec_at := Emu.exec_at.
 Definition il_steps := Emu.steps.
+Definition il_set_pc (s : IL.mstate) (a : BinNums.Z) := IL.setr s Regs.gPC a.
 Definition il_fetch (s : IL.mstate) (a : BinNums.Z) := Emu.fetch Emu.FETCH_WINDOW (IL.mem s) a.
 Definition il_obs_regs := Emu.obs_regs.
 Definition il_obs_writes := Emu.obs_writes.
@@ -56,6 +57,8 @@ Definition st_den (i : Decode.instr) (s : IL.mstate) :=
   end.
 Definition st_sort_uniq := Emu.sort_uniq.
 
+Definition sp_exec := Spec.spec_exec.
+
 Extraction "Extract/model.ml"
   BinInt.Z.add timer_py_run timer_rs_run timer_py_init timer_rs_init
   regs_py_run regs_rs_run
@@ -64,5 +67,5 @@ Extraction "Extract/model.ml"
   kbd_py_run kbd_rs_run
   sched_spawn_all sched_drive
   mem_py_run mem_rs_run mem_card_slot
-  il_lift il_fetch il_mk_state il_exec_at il_steps il_obs_regs il_obs_writes il_rlog il_wlog il_halted il_temps
-  st_analyze st_render_ops st_den st_sort_uniq.
+  il_lift il_fetch il_set_pc il_mk_state il_exec_at il_steps il_obs_regs il_obs_writes il_rlog il_wlog il_halted il_temps
+  st_analyze st_render_ops st_den st_sort_uniq sp_exec.
